@@ -203,6 +203,124 @@ def specAddItem (a : AState) (l : LH) (name : Option Name) (val : Option V) : AS
     else if a.hasItem l.cid n.key then (a, .error CIF_DUP_ITEMNAME)
     else (a.onLoop l.cid l.loopNum (fun y => { y with items := y.items ++ [(n.key, n.orig)], packets := y.packets.map (· ++ [val.getD .unk]) }), .ok ())
 
+/-- the values of item `k` in the loop's packets, in packet order -/
+def ALoop.column (x : ALoop) (k : Str) : List V :=
+  x.packets.map (fun p => p.getD (x.items.findIdx (fun it => it.1 == k)) .unk)
+
+/-- the column of item `k` of container `cid` (empty when the container has no such item) -/
+def AState.columnOf (a : AState) (cid : Nat) (k : Str) : List V :=
+  match a.loops.find? (fun y => y.cid == cid && y.hasItem k) with
+  | some x => x.column k
+  | none => []
+
+/-- cif_container_get_value: the item's value; with several packets the first, and CIF_AMBIGUOUS_ITEM; CIF_NOSUCH_ITEM when the
+    container has no such item or its loop has no packet -/
+def specGetValue (a : AState) (h : CH) (name : Option Name) : Except Code (V × Bool) :=
+  match name with
+  | none => .error CIF_NOSUCH_ITEM
+  | some n =>
+    if !n.valid then .error CIF_NOSUCH_ITEM
+    else match a.columnOf h.id n.key with
+      | [] => .error CIF_NOSUCH_ITEM
+      | [v] => .ok (v, false)
+      | v :: _ => .ok (v, true)
+
+/-- the loop of container `cid` that has item `k` -/
+def AState.itemLoop (a : AState) (cid : Nat) (k : Str) : Option ALoop := a.loops.find? (fun y => y.cid == cid && y.hasItem k)
+
+/-- the loop without item `k`: its name goes, and its value from every packet -/
+def ALoop.dropItem (x : ALoop) (k : Str) : ALoop :=
+  { x with items := x.items.filter (fun it => !(it.1 == k)),
+           packets := x.packets.map (fun p => ((x.items.zip p).filter (fun e => !(e.1.1 == k))).map (·.2)) }
+
+/-- cif_container_remove_item: the item goes from its loop, with its values; the loop goes with its last item -/
+def specRemoveItem (a : AState) (h : CH) (name : Option Name) : AState × Except Code Unit :=
+  match name with
+  | none => (a, .error CIF_INVALID_ITEMNAME)
+  | some n =>
+    if !n.valid then (a, .error CIF_NOSUCH_ITEM)
+    else match a.itemLoop h.id n.key with
+      | none => (a, .error CIF_NOSUCH_ITEM)
+      | some x =>
+        if x.items.length == 1 then ({ a with loops := a.loops.filter (fun y => !(y.cid == x.cid && y.num == x.num)) }, .ok ())
+        else (a.onLoop x.cid x.num (fun y => y.dropItem n.key), .ok ())
+
+/-- cif_container_get_all_loops: a handle on every loop of the container, in the container's order -/
+def specAllLoops (a : AState) (h : CH) : Except Code (List LH) :=
+  if !a.containers.any (fun c => c.id == h.id) then .error CIF_INVALID_HANDLE
+  else .ok ((a.loops.filter (fun y => y.cid == h.id)).map (fun y => { cid := h.id, loopNum := y.num, category := y.category }))
+
+-- ---- packet iterators on the documented model ---------------------------------------------------------------------------------------
+
+/-- an open packet iterator, as the documentation describes it: it walks the packets of one loop in order; `done` packets of the loop
+    (as it is now) lie behind it, the last of them is its current packet unless that was removed (or none was delivered yet);
+    `start` is the CIF as it was when the iterator was created — what cif_pktitr_abort brings back -/
+structure AIter where
+  cid : Nat
+  num : Nat
+  done : Nat
+  hasCur : Bool
+  start : AState
+deriving Inhabited
+
+structure AITE where
+  cif : Nat
+  lh : Nat
+  it : AIter
+deriving Inhabited
+
+/-- row `r` of the loop is still to be delivered by the (concrete) iterator -/
+def Iter.pend (it : Iter) (r : Nat) : Bool := it.rows.any (fun x => x.rowNum == r)
+
+/-- the number of packets of the loop (as it is now) that the iterator has passed -/
+def Iter.doneIn (it : Iter) (d : Db) : Nat := ((d.loopRows it.cid it.loopNum).filter (fun q => !it.pend q)).length
+
+/-- the iterator as the documented model sees it -/
+def absIter (it : Iter) (s : Store) : AIter :=
+  { cid := it.cid, num := it.loopNum, done := it.doneIn s.db, hasCur := decide (0 < it.prev), start := absS (s.txn.getD s.db) }
+
+/-- cif_loop_get_packets on a CIF without open iterator -/
+def specItOpen (a : AState) (l : LH) : Except Code AIter :=
+  match a.findLoop l.cid l.loopNum with
+  | none => .error CIF_INVALID_HANDLE
+  | some x =>
+    if x.items.isEmpty then .error CIF_INVALID_HANDLE
+    else if x.packets.isEmpty then .error CIF_EMPTY_LOOP
+    else .ok { cid := l.cid, num := l.loopNum, done := 0, hasCur := false, start := a }
+
+/-- cif_pktitr_next_packet: the next packet of the loop — one (name, value) pair per item, in the loop's order — or CIF_FINISHED -/
+def specItNext (a : AState) (it : AIter) : AIter × Except Code (List (Str × V)) :=
+  match a.findLoop it.cid it.num with
+  | none => (it, .error CIF_INTERNAL_ERROR)
+  | some x =>
+    match x.packets[it.done]? with
+    | some p => ({ it with done := it.done + 1, hasCur := true }, .ok ((x.items.map (·.1)).zip p))
+    | none => (it, .error CIF_FINISHED)
+
+/-- packet `idx` of the loop with the values `pkt` gives for its items, its other values unchanged -/
+def ALoop.updAt (y : ALoop) (idx : Nat) (pkt : List (Str × V)) : ALoop :=
+  match y.packets[idx]? with
+  | some p =>
+    let p' := (y.items.zip p).map (fun e => ((pkt.find? (fun q => q.1 == e.1.1)).map (·.2)).getD e.2)
+    { y with packets := y.packets.set idx p' }
+  | none => y
+
+/-- cif_pktitr_update_packet: CIF_MISUSE without a current packet, CIF_WRONG_LOOP for an item of another loop; else the current
+    packet gets the given values, its other values stay -/
+def specItUpdate (a : AState) (it : AIter) (pkt : List (Str × V)) : AState × Except Code Unit :=
+  if !it.hasCur then (a, .error CIF_MISUSE)
+  else match a.findLoop it.cid it.num with
+    | none => (a, .error CIF_INTERNAL_ERROR)
+    | some x =>
+      if pkt.any (fun e => !x.hasItem e.1) then (a, .error CIF_WRONG_LOOP)
+      else (a.onLoop it.cid it.num (fun y => y.updAt (it.done - 1) pkt), .ok ())
+
+/-- cif_pktitr_remove_packet: CIF_MISUSE without a current packet; else the current packet goes, and there is no current packet -/
+def specItRemove (a : AState) (it : AIter) : AState × AIter × Except Code Unit :=
+  if !it.hasCur then (a, it, .error CIF_MISUSE)
+  else (a.onLoop it.cid it.num (fun y => { y with packets := y.packets.eraseIdx (it.done - 1) }),
+        { it with done := it.done - 1, hasCur := false }, .ok ())
+
 -- ---- histories on the documented model -----------------------------------------------------------------------------------------------
 
 /-- the world of a history, every managed CIF as the documented model; the handle tables are the caller's (a handle names an object),
@@ -242,7 +360,7 @@ end AWorld
 /-- the ops `specStep` covers so far -/
 def Op.covered : Op → Bool
   | .addPkt .. | .setCat .. | .ldestroy .. => true
-  | .names .. | .catLoop .. | .itemLoop .. | .prune .. | .mkBlock .. | .mkFrame .. | .mkLoop .. | .addItem .. => true
+  | .names .. | .catLoop .. | .itemLoop .. | .prune .. | .mkBlock .. | .mkFrame .. | .mkLoop .. | .addItem .. | .getVal .. | .rmItem .. | .loops .. => true
   | .cifNew | .cifDel .. | .getBlock .. | .blocks .. | .getFrame .. | .frames .. | .code .. | .isBlock .. | .getCat .. | .cdestroy .. => true
   | _ => false
 
@@ -376,6 +494,34 @@ def specStep (a : AWorld) : Op → Option (AWorld × Result)
       | some _ =>
         let (st1, r) := specAddItem st e.h n v
         some (a.setCif e.cif st1, { rc := some (codeOf r) })
+  | .getVal h n =>
+    match a.liveH h with
+    | none => some (a, skipped)
+    | some (e, st) =>
+      match n with
+      | none => some (a, skipped)
+      | some _ =>
+        match specGetValue st e.h n with
+        | .ok (v, amb) => some (a.setCif e.cif st, { rc := some (if amb then CIF_AMBIGUOUS_ITEM else CIF_OK), out := .value v })
+        | .error c => some (a.setCif e.cif st, { rc := some c })
+  | .rmItem h n =>
+    match a.liveH h with
+    | none => some (a, skipped)
+    | some (e, st) =>
+      let (st1, r) := specRemoveItem st e.h n
+      some (a.setCif e.cif st1, { rc := some (codeOf r) })
+  | .loops h =>
+    match a.liveH h with
+    | none => some (a, skipped)
+    | some (e, st) =>
+      match specAllLoops st e.h with
+      | .error c => some (a.setCif e.cif st, { rc := some c })
+      | .ok ls =>
+        -- the caller then asks each returned handle for its category and its names
+        some (a.setCif e.cif st, { rc := some CIF_OK, out := .loops (ls.map (fun l =>
+          match specGetNames st l with
+          | .ok ns => (l.category, some (ns.map (·.2)))
+          | .error _ => (l.category, none))) })
   | _ => none
 
 /-- a whole history on the documented model (`none` as soon as an op is not covered) -/
